@@ -26,7 +26,9 @@ MECHANISM = ["parsing.fast_verilog.fast_parse_verilog_netlist", "parsing.verilog
 RULE = ("case = program text; distinct = distinct text; non-trivial = the text has at least one instance or assign")
 ASSUMPTIONS = ["')' and ';' of a header / instance are adjacent (stated by the property)",
                "graph identity is judged on node names, type, output mark (missing = False) and edges, after renaming tie0/tie1 <-> tie_0/tie_1"]
-BB_DEFS = {"ff": (["clk", "d"], ["q"]), "two": (["i"], ["o1", "o2"])}
+BB_DEFS = {"ff": (["clk", "d"], ["q"]), "two": (["i"], ["o1", "o2"]),
+           # library cells called like a primitive but for the case (type names are case sensitive)
+           "BUF": (["A"], ["Y"]), "Nand": (["A", "B"], ["Y"])}
 WS_DEV = ["", "  ", "\t", "\n"]
 
 
@@ -465,6 +467,12 @@ def names_modules():
             ports = [n for it in items if it[0] in ("input", "output") for n in it[1]]
             yield {"name": "top", "ports": ports, "items": items}
         yield {"name": x, "ports": ["a", "b", "y", "z"], "items": base_in + base_out + [["gate", "and", [["U0", ["y", "a", "b"]]]], ["assign", [["z", ("id", "a")]]]]}
+    # blackbox cells whose type name is a primitive's name in another case
+    for bbt, pins in (("BUF", [["A", "a"], ["Y", "y"]]), ("Nand", [["A", "a"], ["B", "b"], ["Y", "y"]]), ("BUF", [["A", "b"], ["Y", None]])):
+        items = [["input", ["a", "b"]], ["output", ["y", "z"]], ["bb", bbt, "u0", pins], ["gate", "nand", [["U1", ["z", "a", "b"]]]]]
+        if pins[-1][1] is None:
+            items.append(["gate", "buf", [["U2", ["y", "a"]]]])
+        yield {"name": "top", "ports": ["a", "b", "y", "z"], "items": items}
     # a port that is both an input and an output (what the writer emits for an input node marked as output)
     for outs, extra in ((["a", "y"], []), (["y", "a"], []), (["a", "b", "y"], []), (["a"], [["wire", ["y"]]])):
         items = [["input", ["a", "b"]], ["output", outs]] + extra + [["gate", "nand", [["U0", ["y", "a", "b"]]]]]
